@@ -321,23 +321,17 @@ theorem C12_ids_reachable (k : Kind) (size : Nat) (ops : List Op) (o : TopOpt)
 
 /-! ### TopN(n) on a freshly recalculated cache that holds every non-empty row -/
 
-/-- C12, second sentence. The cache is ranked, was recalculated just now (`rankings` is a sorted
-listing `full` of all entries, nothing cut off: the rows fit; the next invalidate is throttled) and
-holds every non-empty row. `rows` is any duplicate-free enumeration of the rows whose count is
-non-zero and reaches the threshold. Then TopN(n):
-  * reports only such rows, each with its exact count,
-  * in non-increasing order of count,
-  * min(n, number of such rows) of them (all of them for n = 0),
-  * and no row left out has a larger count than a reported one. -/
-theorem C12_fresh (f : Frag) (n thr : Nat) (full rows : List Nat)
-    (hkind : f.cache.kind = .ranked) (hthrot : f.cache.throttled = true)
+/-- The loop of `fragment.top` (no ids, no filter row) over candidate pairs that list every cache
+entry once in non-increasing order of count, when the cache holds every non-empty row. -/
+theorem fresh_core (f : Frag) (n thr : Nat) (full rows : List Nat)
+    (hkn : f.cache.kind ≠ .none)
     (hvalid : validOrder f.cache.entries full = true)
-    (hrank : f.cache.rankings = full.map (fun id => (id, eget f.cache.entries id)))
     (hinv : CacheInv f.cache f.store.count)
     (hcomplete : ∀ r, f.store.count r > 0 → eget f.cache.entries r = f.store.count r)
     (hrowsnd : rows.Nodup)
     (hrows : ∀ r, r ∈ rows ↔ (f.store.count r ≥ 1 ∧ f.store.count r ≥ thr)) :
-    let res := (f.top { n := n, minThr := thr }).1
+    let res := sortPairs (topLoop f.store { n := n, minThr := thr } n
+      (full.map (fun id => (id, eget f.cache.entries id))) [])
     (∀ p ∈ res, p.2 = f.store.count p.1 ∧ p.1 ∈ rows) ∧
     res.Pairwise (fun a b => a.2 ≥ b.2) ∧
     res.length = (if n = 0 then rows.length else Nat.min n rows.length) ∧
@@ -345,34 +339,24 @@ theorem C12_fresh (f : Frag) (n thr : Nat) (full rows : List Nat)
   intro res
   let o : TopOpt := { n := n, minThr := thr }
   let m := f.cache.entries
-  have hkn : f.cache.kind ≠ .none := by rw [hkind]; exact fun h => Kind.noConfusion h
   -- unpack validOrder
   simp only [validOrder, Bool.and_eq_true] at hvalid
   obtain ⟨⟨⟨hnd, hall⟩, hcov⟩, hni⟩ := hvalid
   have hfullnd : full.Nodup := nodup_of_nodupB full hnd
   -- the candidates that pass, in ranking order
   let L : List (Nat × Nat) := (full.filter (passes m thr)).map (fun id => (id, eget m id))
-  have hL : f.cache.rankings.filterMap (keepPair f.store o) = L := by
-    rw [hrank]; exact filterMap_keep_rankings f.store o rfl m full
+  have hL : (full.map (fun id => (id, eget m id))).filterMap (keepPair f.store o) = L :=
+    filterMap_keep_rankings f.store o rfl m full
   -- what the loop returns
   let T : List (Nat × Nat) := if n = 0 then L else L.take n
-  have hT : topLoop f.store o n f.cache.rankings [] = T := by
+  have hT : topLoop f.store o n (full.map (fun id => (id, eget m id))) [] = T := by
     by_cases hn : n = 0
     · simp only [T, hn, if_true]
       rw [topLoop_zero, List.nil_append, hL]
     · simp only [T, hn, if_false]
       rw [topLoop_nosrc f.store o n rfl (Nat.pos_of_ne_zero hn) _ [] (Nat.pos_of_ne_zero hn), List.nil_append, hL]
   have hres : res = sortPairs T := by
-    show (f.top o).1 = _
-    unfold Frag.top Frag.topBitmapPairs
-    have hkk : ¬ f.cache.kind = Kind.none := hkn
-    have hinvd : f.cache.invalidate = f.cache := by
-      unfold Cache.invalidate; rw [hkind]; simp only [hthrot, if_true]
-    have htop : f.cache.top = (f.cache.rankings, f.cache) := by
-      unfold Cache.top; rw [hkind]
-    have hoi : o.ids.isEmpty = true := rfl
-    simp only [hkk, if_false, hoi, if_true, hinvd, htop]
-    show sortPairs (topLoop f.store o n f.cache.rankings []) = _
+    show sortPairs (topLoop f.store o n (full.map (fun id => (id, eget m id))) []) = _
     rw [hT]
   -- facts about members of L
   have hmemL : ∀ p ∈ L, p.1 ∈ full ∧ passes m thr p.1 = true ∧ p.2 = eget m p.1 := by
@@ -460,6 +444,78 @@ theorem C12_fresh (f : Frag) (n thr : Nat) (full rows : List Nat)
       rw [hsplit] at hLsorted
       exact (List.pairwise_append.mp hLsorted).2.2 p hpT _ hrd
 
+/-- C12, second sentence. The cache is ranked, was recalculated just now (`rankings` is a sorted
+listing `full` of all entries, nothing cut off: the rows fit; the next invalidate is throttled) and
+holds every non-empty row. `rows` is any duplicate-free enumeration of the rows whose count is
+non-zero and reaches the threshold. Then TopN(n):
+  * reports only such rows, each with its exact count,
+  * in non-increasing order of count,
+  * min(n, number of such rows) of them (all of them for n = 0),
+  * and no row left out has a larger count than a reported one. -/
+theorem C12_fresh (f : Frag) (n thr : Nat) (full rows : List Nat)
+    (hkind : f.cache.kind = .ranked) (hthrot : f.cache.throttled = true)
+    (hvalid : validOrder f.cache.entries full = true)
+    (hrank : f.cache.rankings = full.map (fun id => (id, eget f.cache.entries id)))
+    (hinv : CacheInv f.cache f.store.count)
+    (hcomplete : ∀ r, f.store.count r > 0 → eget f.cache.entries r = f.store.count r)
+    (hrowsnd : rows.Nodup)
+    (hrows : ∀ r, r ∈ rows ↔ (f.store.count r ≥ 1 ∧ f.store.count r ≥ thr)) :
+    let res := (f.top { n := n, minThr := thr }).1
+    (∀ p ∈ res, p.2 = f.store.count p.1 ∧ p.1 ∈ rows) ∧
+    res.Pairwise (fun a b => a.2 ≥ b.2) ∧
+    res.length = (if n = 0 then rows.length else Nat.min n rows.length) ∧
+    (∀ r ∈ rows, r ∉ res.map (·.1) → ∀ p ∈ res, p.2 ≥ f.store.count r) := by
+  have hkn : f.cache.kind ≠ .none := by rw [hkind]; exact fun h => Kind.noConfusion h
+  have hres : (f.top { n := n, minThr := thr }).1 =
+      sortPairs (topLoop f.store { n := n, minThr := thr } n
+        (full.map (fun id => (id, eget f.cache.entries id))) []) := by
+    unfold Frag.top Frag.topBitmapPairs
+    have hkk : ¬ f.cache.kind = Kind.none := hkn
+    have hinvd : f.cache.invalidate = f.cache := by
+      unfold Cache.invalidate; rw [hkind]; simp only [hthrot, if_true]
+    have htop : f.cache.top = (f.cache.rankings, f.cache) := by
+      unfold Cache.top; rw [hkind]
+    have hoi : ({ n := n, minThr := thr } : TopOpt).ids.isEmpty = true := rfl
+    simp only [hkk, if_false, hoi, if_true, hinvd, htop, hrank]
+  intro res
+  show _ ∧ _ ∧ _ ∧ _
+  have := fresh_core f n thr full rows hkn hvalid hinv hcomplete hrowsnd hrows
+  simp only at this
+  rw [← hres] at this
+  exact this
+
+/-- The same for the LRU cache (`Top()` sorts all cached counts on every call; `full` is the order
+it produced, `c'` the cache afterwards): nothing was evicted, every non-empty row is cached. -/
+theorem C12_fresh_lru (f : Frag) (n thr : Nat) (full rows : List Nat) (c' : Cache)
+    (hkind : f.cache.kind = .lru)
+    (hvalid : validOrder f.cache.entries full = true)
+    (htop : f.cache.top = (full.map (fun id => (id, eget f.cache.entries id)), c'))
+    (hinv : CacheInv f.cache f.store.count)
+    (hcomplete : ∀ r, f.store.count r > 0 → eget f.cache.entries r = f.store.count r)
+    (hrowsnd : rows.Nodup)
+    (hrows : ∀ r, r ∈ rows ↔ (f.store.count r ≥ 1 ∧ f.store.count r ≥ thr)) :
+    let res := (f.top { n := n, minThr := thr }).1
+    (∀ p ∈ res, p.2 = f.store.count p.1 ∧ p.1 ∈ rows) ∧
+    res.Pairwise (fun a b => a.2 ≥ b.2) ∧
+    res.length = (if n = 0 then rows.length else Nat.min n rows.length) ∧
+    (∀ r ∈ rows, r ∉ res.map (·.1) → ∀ p ∈ res, p.2 ≥ f.store.count r) := by
+  have hkn : f.cache.kind ≠ .none := by rw [hkind]; exact fun h => Kind.noConfusion h
+  have hres : (f.top { n := n, minThr := thr }).1 =
+      sortPairs (topLoop f.store { n := n, minThr := thr } n
+        (full.map (fun id => (id, eget f.cache.entries id))) []) := by
+    unfold Frag.top Frag.topBitmapPairs
+    have hkk : ¬ f.cache.kind = Kind.none := hkn
+    have hinvd : f.cache.invalidate = f.cache := by
+      unfold Cache.invalidate; rw [hkind]
+    have hoi : ({ n := n, minThr := thr } : TopOpt).ids.isEmpty = true := rfl
+    simp only [hkk, if_false, hoi, if_true, hinvd, htop]
+  intro res
+  show _ ∧ _ ∧ _ ∧ _
+  have := fresh_core f n thr full rows hkn hvalid hinv hcomplete hrowsnd hrows
+  simp only at this
+  rw [← hres] at this
+  exact this
+
 /-- The hypotheses of C12_fresh are met by a non-trivial state: two rows, cache of size 2, after an
 import (which recalculates). -/
 example :
@@ -467,6 +523,13 @@ example :
     f.cache.kind = .ranked ∧ f.cache.throttled = true ∧ validOrder f.cache.entries [1, 2] = true ∧
     f.cache.rankings = [1, 2].map (fun id => (id, eget f.cache.entries id)) ∧
     f.store.count 1 = 2 ∧ f.store.count 2 = 1 ∧ (f.top { n := 1 }).1 = [(1, 2)] := by decide
+
+/-- The hypotheses of C12_fresh_lru on a non-trivial state: LRU of size 3 holding three rows. -/
+example :
+    let f := (Frag.open .lru 3).importBits [(1, 0), (1, 1), (2, 0), (4, 0), (4, 1), (4, 2)] false
+    f.cache.kind = .lru ∧ validOrder f.cache.entries [4, 1, 2] = true ∧
+    f.cache.top.1 = [4, 1, 2].map (fun id => (id, eget f.cache.entries id)) ∧
+    (f.top { n := 2 }).1 = [(4, 3), (1, 2)] := by decide
 
 /-- C12_ids on a non-trivial state: LRU of size 1, row 2 evicted, then changed by a roaring import. -/
 example :
